@@ -440,6 +440,9 @@ private theorem noHandle_ents (rc : Nat → List Policy) (bl : Nat → List ATre
       | (rename_i heq; cases heq; done)
       | (rename_i hne _; exact (hne _ _ _ rfl).elim)
 
+/-- **copy_no_handle**: for every recipe table, every table of default parts and every well formed entity tree:
+    the top entity of the model copy and every entity that the strategy produces below it (extension dictionary
+    and its entries, sub-entities of `ents` parts, recursively) have handle = owner = reactors = None -/
 theorem copy_no_handle (rc : Nat → List Policy) (bl : Nat → List ATree) (a c : Nat) (cs : List ATree)
     (hs : shapeOK rc (.ent a c cs) = true) : noHandle rc (copyT rc bl (.ent a c cs)) = true := by
   have := noHandle_ents rc bl (.ent a c cs) hs
@@ -699,9 +702,6 @@ theorem check_sound (allowed : List Rule) (g : Graph) (hc : checkGraph allowed g
         simp [isImm, Graph.heap, List.getElem?_map, hn, h1]
     · exact Or.inr h1
 
-/-- the explicit Frozen list together with the known defects (see below) -/
-def tolerated : List Rule := allowedFrozen ++ knownShared
-
 /- Full-strength statement, NOT provable on the unchanged tree:
 
      theorem graphs_separated :
@@ -770,10 +770,6 @@ private theorem wf_of_check (h : Heap)
   have := hc o (List.mem_of_getElem? ho) _ hm
   simpa using this
 
-/-- the heap of finding C16-1 in miniature: source `0` and copy `1` own the same mutable cell `2`
-    (as BODY and its copy own one `_temporary_transformation`) -/
-def aliasedHeap : Heap := [⟨.cell, [.own 2, .val 7]⟩, ⟨.cell, [.own 2, .val 7]⟩, ⟨.cell, [.val 0]⟩]
-
 /-- without the separation hypothesis `frame` fails: one write through the copy changes what the source
     observes (the heap is well formed, both roots are valid) -/
 theorem frame_needs_separation :
@@ -781,12 +777,6 @@ theorem frame_needs_separation :
     observe (applyAll [] 1 aliasedHeap [.setVal [0] 0 1]) 3 (.own 0) ≠ observe aliasedHeap 3 (.own 0) := by
   refine ⟨wf_of_check _ (by decide), by decide, by decide, ?_⟩
   simp [aliasedHeap, applyAll, apply1, resolve, newSlots, Write.path, observe]
-
-/-- a separated pair: source `0` -> `2`, copy `1` -> `3`, both point to the frozen resource `4` -/
-def separatedGraph : Graph :=
-  { nodes := [(.cell, [2, 4]), (.cell, [3, 4]), (.cont, []), (.cont, []), (.cell, [])],
-    rootA := 0, rootB := 1, reachA := [0, 2, 4], reachB := [1, 3, 4],
-    frozen := [⟨4, some ("ImageDef", "Image", "_image_def"), none⟩] }
 
 example : checkGraph allowedFrozen separatedGraph = true := by decide
 -- the same graph is rejected when the shared object is not on the Frozen list
@@ -804,18 +794,6 @@ example : WF separatedGraph.heap ∧ Sep separatedGraph.frozenIds separatedGraph
 #guard reprStr (observe (applyAll [4] 1 separatedGraph.heap [.push [1] 5]) 4 (.own 0))
         == reprStr (observe separatedGraph.heap 4 (.own 0))
 
-/-! examples for the copy model: class 0 = an entity with the parts (deepcopy, alias, shallow, sub-entities),
-    class 1 = a sub-entity without parts -/
-def rcEx : Nat → List Policy := fun c => if c = 0 then [.deep, .alias, .shallow, .ents] else []
-def blEx : Nat → List ATree := fun _ => []
-def subEx (a : Nat) : ATree :=
-  .ent a 1 [.navr 9, .node (a + 1) .cell [.leaf 51, .leaf 52, .leaf 7], .leaf NONE, .leaf 33, .leaf NONE, .leaf NONE, .leaf NONE, .leaf NONE]
-def entEx : ATree :=
-  .ent 10 0 [.navr 9, .node 11 .cell [.leaf 41, .leaf 42, .leaf 5, .node 12 .cont [.leaf 1]],
-    .node 13 .cell [.ent 14 1 [.navr 9, .node 15 .cell [.leaf 43, .leaf 41], .leaf NONE, .leaf NONE, .leaf NONE, .leaf NONE, .leaf NONE, .leaf NONE]],
-    .node 16 .cell [.leaf 44], .leaf 3, .node 17 .cont [.leaf 2], .node 18 .cont [.leaf 3], .leaf NONE,
-    .node 19 .cont [.node 20 .cont [.leaf 4]], .node 21 .cont [.leaf 5], .node 22 .cont [.node 23 .cell [.leaf 6]],
-    .node 24 .cont [subEx 25, subEx 27]]
 #guard shapeOK rcEx entEx
 #guard noHandle rcEx (copyT rcEx blEx entEx)
 #guard !noHandle rcEx entEx          -- the source has handles
